@@ -292,6 +292,17 @@ package css
 
 // ---- hash.go (C16): soundness of the perfect hash: a non-zero result names exactly the argument
 //@ func ToHash
+// the generated tables are consistent with the constants: every table entry is a constant, every constant is in the
+// table, and a constant's offset and length select its own name (identifier in lower case, '_' for '-') in the text
+//@   ensures[F,C16] @table-entries: old(forall(i, 0, 8, _Hash_table[i] == 0 || _Hash_table[i] == Document || _Hash_table[i] == Font_Face || _Hash_table[i] == Keyframes || _Hash_table[i] == Layer || _Hash_table[i] == Media || _Hash_table[i] == Page || _Hash_table[i] == Supports))
+//@   ensures[F,C16] @constants-in-table: old(exists(i, 0, 8, _Hash_table[i] == Document) && exists(i, 0, 8, _Hash_table[i] == Font_Face) && exists(i, 0, 8, _Hash_table[i] == Keyframes) && exists(i, 0, 8, _Hash_table[i] == Layer) && exists(i, 0, 8, _Hash_table[i] == Media) && exists(i, 0, 8, _Hash_table[i] == Page) && exists(i, 0, 8, _Hash_table[i] == Supports))
+//@   ensures[F,C16] @text-document: old((Document & 0xff) == 8 && _Hash_text[(Document >> 8) + 0] == 'd' && _Hash_text[(Document >> 8) + 1] == 'o' && _Hash_text[(Document >> 8) + 2] == 'c' && _Hash_text[(Document >> 8) + 3] == 'u' && _Hash_text[(Document >> 8) + 4] == 'm' && _Hash_text[(Document >> 8) + 5] == 'e' && _Hash_text[(Document >> 8) + 6] == 'n' && _Hash_text[(Document >> 8) + 7] == 't')
+//@   ensures[F,C16] @text-font_face: old((Font_Face & 0xff) == 9 && _Hash_text[(Font_Face >> 8) + 0] == 'f' && _Hash_text[(Font_Face >> 8) + 1] == 'o' && _Hash_text[(Font_Face >> 8) + 2] == 'n' && _Hash_text[(Font_Face >> 8) + 3] == 't' && _Hash_text[(Font_Face >> 8) + 4] == '-' && _Hash_text[(Font_Face >> 8) + 5] == 'f' && _Hash_text[(Font_Face >> 8) + 6] == 'a' && _Hash_text[(Font_Face >> 8) + 7] == 'c' && _Hash_text[(Font_Face >> 8) + 8] == 'e')
+//@   ensures[F,C16] @text-keyframes: old((Keyframes & 0xff) == 9 && _Hash_text[(Keyframes >> 8) + 0] == 'k' && _Hash_text[(Keyframes >> 8) + 1] == 'e' && _Hash_text[(Keyframes >> 8) + 2] == 'y' && _Hash_text[(Keyframes >> 8) + 3] == 'f' && _Hash_text[(Keyframes >> 8) + 4] == 'r' && _Hash_text[(Keyframes >> 8) + 5] == 'a' && _Hash_text[(Keyframes >> 8) + 6] == 'm' && _Hash_text[(Keyframes >> 8) + 7] == 'e' && _Hash_text[(Keyframes >> 8) + 8] == 's')
+//@   ensures[F,C16] @text-layer: old((Layer & 0xff) == 5 && _Hash_text[(Layer >> 8) + 0] == 'l' && _Hash_text[(Layer >> 8) + 1] == 'a' && _Hash_text[(Layer >> 8) + 2] == 'y' && _Hash_text[(Layer >> 8) + 3] == 'e' && _Hash_text[(Layer >> 8) + 4] == 'r')
+//@   ensures[F,C16] @text-media: old((Media & 0xff) == 5 && _Hash_text[(Media >> 8) + 0] == 'm' && _Hash_text[(Media >> 8) + 1] == 'e' && _Hash_text[(Media >> 8) + 2] == 'd' && _Hash_text[(Media >> 8) + 3] == 'i' && _Hash_text[(Media >> 8) + 4] == 'a')
+//@   ensures[F,C16] @text-page: old((Page & 0xff) == 4 && _Hash_text[(Page >> 8) + 0] == 'p' && _Hash_text[(Page >> 8) + 1] == 'a' && _Hash_text[(Page >> 8) + 2] == 'g' && _Hash_text[(Page >> 8) + 3] == 'e')
+//@   ensures[F,C16] @text-supports: old((Supports & 0xff) == 8 && _Hash_text[(Supports >> 8) + 0] == 's' && _Hash_text[(Supports >> 8) + 1] == 'u' && _Hash_text[(Supports >> 8) + 2] == 'p' && _Hash_text[(Supports >> 8) + 3] == 'p' && _Hash_text[(Supports >> 8) + 4] == 'o' && _Hash_text[(Supports >> 8) + 5] == 'r' && _Hash_text[(Supports >> 8) + 6] == 't' && _Hash_text[(Supports >> 8) + 7] == 's')
 //@   ensures[F,C16] @sound: result != 0 ==> len(s) == (result & 0xff) && forall(k, 0, len(s), _Hash_text[(result >> 8) + k] == s[k])
 //@   loop * candidate 0 <= i && i <= len(s)
 //@   loop * candidate len(t) == len(s)
@@ -442,6 +453,12 @@ package css
 //@   loop * candidate[T] cpM(p) <= old(cpM(p))
 
 //@ func Parser.parseAtRule
+// the kind of block an at-rule opens follows from its name: conditional group rules and @keyframes/@layer hold rules,
+// @font-face and @page hold declarations, anything else is kept as raw tokens
+//@   snapshot at0 = atRule#1
+//@   ensures[F,C08] @rule-list-kinds: result == BeginAtRuleGrammar && (at0 == Document || at0 == Keyframes || at0 == Layer || at0 == Media || at0 == Supports) ==> p.state[len(p.state)-1] == fn("css.Parser.parseAtRuleRuleList")
+//@   ensures[F,C08] @declaration-list-kinds: result == BeginAtRuleGrammar && (at0 == Font_Face || at0 == Page) ==> p.state[len(p.state)-1] == fn("css.Parser.parseAtRuleDeclarationList")
+//@   ensures[F,C08] @unknown-kinds: result == BeginAtRuleGrammar && !(at0 == Document || at0 == Keyframes || at0 == Layer || at0 == Media || at0 == Supports || at0 == Font_Face || at0 == Page) ==> p.state[len(p.state)-1] == fn("css.Parser.parseAtRuleUnknown")
 //@   loop 1 transition[F,C08] @level: smallInt(prev(p.level)) ==> p.level == prev(p.level) + cssLevelStep(tt)
 //@   loop * candidate len(p.state) == old(len(p.state))
 //@   loop * candidate p.prevEnd == old(p.prevEnd)
@@ -463,6 +480,8 @@ package css
 //@   callsite css.ToHash[F,C08] @lowered: forall(k, 0, len(arg0), !('A' <= arg0[k] && arg0[k] <= 'Z'))
 //@ func Parser.parseQualifiedRule
 // inside an attribute selector [...] white space is not a combinator: the flag is set by '[' and cleared by the next ']'
+// white space after a combinator (a token that is exactly one of , > + ~) is dropped, after anything else it is kept
+//@   loop 1 transition[F,C08] @after-combinator: skipWS <==> (len(data) == 1 && (data[0] == ',' || data[0] == '>' || data[0] == '+' || data[0] == '~'))
 //@   loop 1 transition[F,C08] @attr-sel: inAttrSel <==> ite(tt == LeftBracketToken, true, ite(tt == RightBracketToken, false, prev(inAttrSel)))
 //@   loop 1 transition[F,C08] @level: smallInt(prev(p.level)) ==> p.level == prev(p.level) + cssLevelStep(tt)
 //@   loop * candidate[T] first ==> p.tt == old(p.tt) && cpM(p) == old(cpM(p))
